@@ -601,13 +601,13 @@ impl Harness {
                 }
                 // ---- data: device bytes appear exactly now; what the device read is what we sent
                 let seen = with(|w| w.personality::<PatternDevice>().seen.remove(&(q, s.seq)));
-                if let Some((h, l, used)) = seen {
+                if let Some((h, l, reported, used)) = seen {
                     let inlen: usize = s.inputs.iter().map(|b| b.len()).sum();
                     if l != inlen || h != s.in_hash {
                         violation("device-read-wrong-data", "pop_used", format!("device read {l} bytes with hash {h:x}, caller supplied {inlen} bytes with hash {:x}", s.in_hash));
                     }
-                    if used != len {
-                        violation("pop-length", "pop_used", format!("device recorded length {used}, pop_used returned {len}"));
+                    if reported != len {
+                        violation("pop-length", "pop_used", format!("device recorded length {reported}, pop_used returned {len}"));
                     }
                     let mut off = 0usize;
                     for (b, o) in s.outputs.iter().zip(s.out_orig.iter()) {
@@ -837,6 +837,14 @@ pub fn history() {
         op_point();
     }
     h.finish();
+}
+
+/// The same history against a device that sometimes records a used length different from what it
+/// wrote (a fault the queue layer must pass through unchanged: it reports what the device
+/// recorded).
+pub fn history_faulty() {
+    with(|w| w.personality::<PatternDevice>().lie_len = true);
+    history();
 }
 
 /// Long history: more than 65536 submissions so that all 16-bit indices wrap with chains
